@@ -1687,7 +1687,9 @@ class Trimesh(Geometry3D):
         tree : scipy.spatial.cKDTree
           Contains mesh.vertices
         """
-        return cKDTree(self.vertices.view(np.ndarray))
+        # copy so the tree never shares memory with a vertex array
+        # that can be replaced or edited while the tree stays cached
+        return cKDTree(self.vertices.view(np.ndarray).copy())
 
     def remove_degenerate_faces(self, height: float = tol.merge) -> None:
         """
